@@ -401,6 +401,10 @@ type copyCase struct {
 	Short    bool   `json:"short_write"`
 	Buffered bool   `json:"flush_on_close"` // the decorated side's writers hand their data over only in Close
 	Wide     bool   `json:"wide"`
+	// Blocker: the destination holds a regular FILE where the source has an EMPTY directory
+	// ("hollow/inner" or "hollow" itself): the copy cannot be completed, so an error is the
+	// expected outcome; nil is only acceptable with a directory there
+	Blocker string `json:"blocker,omitempty"`
 }
 
 // doCopy runs the helper once with the given fault position; returns helper error, completeness, fired point, number of points.
@@ -429,10 +433,27 @@ func doCopy(rng *rand.Rand, cc copyCase, t *srcTree, failAt int64, tmp string) (
 	if cc.Helper == "Copier-dir" {
 		srcPrefix, dstPrefix = "from/here/", "to/there/"
 	}
+	if cc.Blocker != "" {
+		have := false
+		for _, d := range t.dirs {
+			have = have || d == "hollow/inner"
+		}
+		if !have {
+			t.dirs = append(t.dirs, "hollow", "hollow/inner")
+		}
+	}
 	if err := t.populate(sb.fs, srcPrefix); err != nil {
 		return nil, "", "", 0, fmt.Errorf("populate: %v", err)
 	}
 	t.preseed(rng, db.fs, dstPrefix)
+	if cc.Blocker != "" {
+		if i := strings.LastIndex(dstPrefix+cc.Blocker, "/"); i >= 0 {
+			db.fs.MkdirAll((dstPrefix + cc.Blocker)[:i], 0777)
+		}
+		if err := db.fs.WriteFile(dstPrefix+cc.Blocker, []byte("a file where the source has a directory"), 0644); err != nil {
+			return nil, "", "", 0, fmt.Errorf("blocker: %v", err)
+		}
+	}
 	sfs, dfs := sb.fs, db.fs
 	if cc.Side == "src" && cc.Layer == "outer" {
 		sfs = mfs.NewFaultFS(sfs, faults, "src")
@@ -509,6 +530,8 @@ func runCopy(c *sup.Child, b sup.Batch) {
 		} else if idx%40 == 7 {
 			cc.Wide = true
 			cc.Helper = "Copy"
+		} else if idx%5 == 2 && (cc.Helper == "Copy" || cc.Helper == "Copier-dir") {
+			cc.Blocker = []string{"hollow/inner", "hollow"}[(idx/5)%2]
 		}
 		treeSeed := rng.Int63()
 		c.Case(idx, map[string]any{"copy": cc, "tree_seed": treeSeed}, func(r *sup.CaseResult) {
@@ -519,6 +542,12 @@ func runCopy(c *sup.Child, b sup.Batch) {
 			herr, inc, _, points, serr := doCopy(rng, cc, t, 0, tmp)
 			if serr != nil {
 				r.Inconclusive = "set-up: " + serr.Error()
+				return
+			}
+			if herr != nil && cc.Blocker != "" {
+				r.AddObs("copies_refused_because_a_file_is_where_a_directory_belongs", 1)
+				r.Key = fmt.Sprintf("%+v|%d|%d", cc, len(t.files), treeSeed)
+				r.Nontrivial = true
 				return
 			}
 			if herr != nil {
@@ -591,7 +620,7 @@ func main() {
 		Level: "fault_enumeration",
 		Race:  true,
 		Rule: "stream: backend (mem, disk, enc-mem, enc-disk, cache-mem and a child view of each) × pre-existing file (absent, shorter, equal, longer, empty; for caches also remote-only) × random chunking incl. empty and 1-byte chunks → Writer/Write/Close, then ReadFile and Reader with buffers 1,2,7,4096,len+1 must give exactly the concatenation (io.Reader contract checked); " +
-			"copy: StreamCopy / Copier.Do (file, directory) / fshelper.Copy over random ordered backend pairs, random trees (one in 40 with a 1500-entry directory), destination pre-seeded with longer files: nil error ⇒ destination complete; " +
+			"copy: StreamCopy / Copier.Do (file, directory) / fshelper.Copy over random ordered backend pairs, random trees (one in 40 with a 1500-entry directory), destination pre-seeded with longer / equal / shorter stale files and, in a fifth of the tree copies, with a regular file where the source has an empty directory (an error is expected there): nil error ⇒ destination complete; " +
 			"fault: dry run counts the call points of the decorated side (open, every Read/Write, Close, MkdirAll, ReadDir; at the outer boundary or below the encryption/cache layer), then EVERY position is failed once (errors; short writes): destination incomplete ⇒ helper returned an error. distinct = distinct (configuration, tree)",
 		Assumptions: []string{
 			"one direction only, as stated: an error with a complete destination is accepted",
